@@ -25,7 +25,7 @@ def gen_geometric(rng):
     a = 10.0 ** rng.uniform(-15, 15) * rng.choice([-1, 1])
     while True:
         q = rng.choice([rng.uniform(-50, 50), rng.uniform(-1, 1), rng.uniform(0.5, 0.99), rng.uniform(1.01, 2),
-                        -rng.uniform(0.5, 2), 0.5, 0.25, -0.5, 2.0])
+                        -rng.uniform(0.5, 2), 0.5, 0.25, -0.5, 2.0, -1.0, -1.0, -2.0, 3.0])     # -1: the first and third term tie exactly
         if abs(q) > 1e-3 and abs(q - 1) > 1e-3:
             break
     k = rng.randint(0, 6)
